@@ -44,7 +44,7 @@ def legal(seq):
 def cases(rng, tier):
     seed = int(os.environ.get("VERIF_SEED", "0") or 0)
     corp = corpus.get(tier, seed)
-    want = ["py/default/encoded/f1", "py/default/raw/f3", "py/lzma2+aes/encoded/f3", "py/copy/encoded/f1", "py/zstd/encoded/f3", "ref/nonsolid/3"]
+    want = ["py/default/encoded/f1", "py/default/raw/f3", "py/lzma2+aes/encoded/f3", "py/copy/encoded/f1", "py/zstd/encoded/f3", "ref/nonsolid/3", "ref/packpos/3"]
     if tier == "thorough":
         want += ["py/lzma/encoded/f1", "py/bzip2/encoded/f1", "py/ppmd/encoded/f1", "py/copy+aes/encoded/f1", "ref/copy/packcrc/raw", "ref/aes/packcrc", "py/lzma2+aes/raw/f1"]
     arcs = [a for a in corp if a["label"] in want]
@@ -75,7 +75,7 @@ def cases(rng, tier):
     for a in arcs:
         if a["pack_total"] < 8:
             continue
-        pos = 32 + a["pack_total"] // 2
+        pos = 32 + (37 if a["label"] == "ref/packpos/3" else 0) + a["pack_total"] // 2  # inside the packed streams, behind the PackPos filler
         ver = [s for s in seqs if ("test" in s or "testzip" in s) and len(s) <= 3]
         rng.shuffle(ver)
         for mode in ("path", "stream"):
